@@ -341,6 +341,7 @@ def run_property(pid, tier, rules_fn, explanation, not_decided, trusted_base=(),
         "selftest": ctx.selftest,
         "detector_selftest": detector,
         "helper_inlining": inlined_note,
+        "names_normalised": ctx.renamed_summary(),
     }
     ev = {
         "property_id": pid,
@@ -425,6 +426,15 @@ class Ctx:
 
     def inlined_helpers(self):
         return dict(self._helpers)
+
+    def renamed_summary(self):
+        """parameters / variables whose current name differs from the pinned tree's and was mapped back by position (facts.normalise_names)"""
+        out = {}
+        for k, f in self._used.items():
+            ren = getattr(f, "renamed", None) or {}
+            if ren:
+                out[k] = {"functions": len(ren), "sample": {p: r for p, r in sorted(ren.items())[:5]}}
+        return out or None
 
     @property
     def facts(self):
